@@ -105,8 +105,31 @@ def LineGrains.WellFormed : LineGrains R → Prop
     basis.length = comps.length ∧ sizes.length = comps.length ∧ normalize.length = comps.length ∧ deflections.length = comps.length
   | .drawn _ => True
 
+/-- slab `mass conserving`: the tables the ridge search indexes fit together — the ridge data as for the oceanic models; a first
+subducting velocity exists; if the subducting velocities are given per ridge point (first row longer than 1) there is one row per ridge,
+one value per ridge point, and one `ridge_migration_times` entry (= one `spreading velocity` item) per ridge — and the spline is off
+(`interpolation::operator()` indexes its table with a value computed from the query, `m[idx]` with `idx = n` for `x ≥ n`).
+`MassConserving::parse_entries` checks the dimensions of the rows, but neither the number of migration times nor anything about the spline
+index: C12 states what follows from that. -/
+def MassConserving.WellFormed (m : MassConserving R) : Prop :=
+  m.ridge.WellFormed ∧
+  (∃ sv0 v, m.subVel[0]? = some sv0 ∧ sv0[0]? = some v) ∧
+  ((∃ sv0, m.subVel[0]? = some sv0 ∧ 1 < sv0.length) →
+    m.subVel.length = m.ridge.ridges.length ∧ m.ridge.ridges.length ≤ m.migrationTimes.length ∧
+    ∀ (i : Nat) (rd : List (P2 R)) (sv : List R), m.ridge.ridges[i]? = some rd → m.subVel[i]? = some sv → sv.length = rd.length) ∧
+  m.applySpline = false
+
+/-- temperature models of a segment: only `mass conserving` indexes anything -/
+def SegTemp.WellFormed : SegTemp R → Prop
+  | .basic _ => True
+  | .slab (.plateModel _) => True
+  | .slab (.massConserving m) => m.WellFormed
+
 def Segment.WellFormed (s : Segment R) : Prop :=
-  (∀ m ∈ s.comps, m.WellFormed) ∧ (∀ m ∈ s.grains, m.WellFormed)
+  (∀ m ∈ s.comps, m.WellFormed) ∧ (∀ m ∈ s.grains, m.WellFormed) ∧ (∀ m ∈ s.temps, m.WellFormed)
+
+/-- the part of `Segment.WellFormed` the parser does not establish: its `mass conserving` models are well-formed -/
+def Segment.TempsWellFormed (s : Segment R) : Prop := ∀ m ∈ s.temps, m.WellFormed
 
 /-- the Bezier curve of a line feature belongs to its coordinates: one cubic per pair of consecutive coordinates -/
 def Bezier.WellFormedFor (bz : Bezier R) (coords : List (P2 R)) : Prop :=
@@ -120,6 +143,9 @@ def LineFeature.WellFormed (f : LineFeature R) : Prop :=
     f.bezier.WellFormedFor f.coords ∧
     (∀ sec ∈ f.sections, ∀ s ∈ sec, s.WellFormed)
 
+/-- every `mass conserving` model of the slab is well-formed (`MassConserving.WellFormed`); trivially true of a slab without that model -/
+def LineFeature.TempsWellFormed (f : LineFeature R) : Prop := ∀ sec ∈ f.sections, ∀ s ∈ sec, s.TempsWellFormed
+
 /-- per feature kind; for the polygons what the indexing code needs (`IndexSafe`) — the parser does not require three corners -/
 def Feature.WellFormed : Feature R → Prop
   | .area f => f.IndexSafe
@@ -127,5 +153,12 @@ def Feature.WellFormed : Feature R → Prop
   | .line f => f.WellFormed
 
 def World.WellFormed (w : World R) : Prop := ∀ f ∈ w.features, f.WellFormed
+
+/-- the `mass conserving` models of all slabs of the world are well-formed -/
+def Feature.TempsWellFormed : Feature R → Prop
+  | .line f => f.TempsWellFormed
+  | _ => True
+
+def World.TempsWellFormed (w : World R) : Prop := ∀ f ∈ w.features, f.TempsWellFormed
 
 end Gwb
